@@ -377,6 +377,11 @@ theorem step_corr (hs : SimpSound s) (hI : I.Std) (hR : R I env code p st f) (hs
       refine corr_push hR hsat (wordRel_con (Nat.mod_lt _ (by decide))) ?_
       rw [evm_calldatasize (hR.hop hop) hl', push_eq, hR.env.cdSize]
     rw [if_neg h36]
+    by_cases h38 : op = 0x38
+    · rw [if_pos h38]; subst h38
+      refine corr_push hR hsat (wordRel_con (Nat.mod_lt _ (by decide))) ?_
+      rw [evm_codesize (hR.hop hop) hl', push_eq, hR.code]
+    rw [if_neg h38]
     by_cases h35 : op = 0x35
     · rw [if_pos h35]; subst h35
       split
